@@ -81,6 +81,32 @@ def parse_verifier(src):
     return rows, problems
 
 
+def parse_merge_norm(src):
+    """view::Merge normalises the kinds a task's views (Left) and entry views (Right) contribute to
+    the merged view list the Verifier works on.  Returns {side: {kind: merged kind}} and, for
+    components viewed on both sides, {(left kind, right kind): merged kind}."""
+    text = norm(src).replace("Component", "T")
+    sides = {"Left": {}, "Right": {}}
+    both = {}
+    for chunk in text.split("impl<")[1:]:
+        merged = re.search(r"type Merged = \( ([^()]*?), <", chunk)
+        if not merged:
+            continue
+        mk = kind_of(merged.group(1))
+        m = re.search(r"Merge<\(([^()]*?), Views\), OtherViews, \(Left, Containments\)>", chunk)
+        if m:
+            sides["Left"][kind_of(m.group(1))] = mk
+            continue
+        m = re.search(r"Merge<Views, \(([^()]*?), OtherViews\), \(Right, Containments\)>", chunk)
+        if m:
+            sides["Right"][kind_of(m.group(1))] = mk
+            continue
+        m = re.search(r"Merge<\(([^()]*?), Views\), \(([^()]*?), OtherViews\), \(Both, Containments\)>", chunk)
+        if m:
+            both[(kind_of(m.group(1)), kind_of(m.group(2)))] = mk
+    return sides, both
+
+
 def parse_merger(src):
     text = norm(src)
     rows = {}
@@ -107,7 +133,7 @@ def parse_check(src):
     return cut_stops, append_continues, null_appends
 
 
-def smt_prelude(rows):
+def smt_prelude(rows, left_norm):
     lines = ["(set-logic ALL)"]
     lines.append("(declare-datatypes ((VK 0)) (((imm) (mut) (oimm) (omut) (idv))))")
     lines.append("(declare-datatypes ((CK 0)) (((absent) (cimm) (cmut) (coimm) (comut))))")
@@ -123,7 +149,19 @@ def smt_prelude(rows):
         else:
             cond = "(and (= v %s) (= c %s))" % (vname[vk], cname[ck])
         body = "(ite %s %s %s)" % (cond, dec, body)
-    lines.append("(define-fun dec ((v VK) (c CK)) Dec %s)" % body)
+    lines.append("(define-fun rawdec ((v VK) (c CK)) Dec %s)" % body)
+    # view::Merge normalisation of the task's (and the claimed tasks') views, extracted from merge.rs
+    vn = "v"
+    for k, nk in left_norm.items():
+        if k in vname and nk in vname:
+            vn = "(ite (= v %s) %s %s)" % (vname[k], vname[nk], vn)
+    lines.append("(define-fun vnorm ((v VK)) VK %s)" % vn)
+    cn = "c"
+    for k, nk in left_norm.items():
+        if k in cname and nk in cname:
+            cn = "(ite (= c %s) %s %s)" % (cname[k], cname[nk], cn)
+    lines.append("(define-fun cnorm ((c CK)) CK %s)" % cn)
+    lines.append("(define-fun dec ((v VK) (c CK)) Dec (rawdec (vnorm v) (cnorm c)))")
     lines.append("(define-fun vwrites ((v VK)) Bool (or (= v mut) (= v omut)))")
     lines.append("(define-fun cwrites ((c CK)) Bool (or (= c cmut) (= c comut)))")
     lines.append("(define-fun conflict ((v VK) (c CK)) Bool (and (not (= v idv)) (not (= c absent)) (or (vwrites v) (cwrites c))))")
@@ -184,9 +222,36 @@ def main():
             res["violations"].append({"what": "two Verifier impls for (%s, %s) with different decisions" % key, "row": list(key), "kind": "ambiguous"})
         seen[key] = dec
 
-    prelude, vname, cname = smt_prelude(rows)
+    sides, both = parse_merge_norm(open(repo + "/src/query/view/merge.rs").read())
+    res["samples"].append({"extracted_merge_normalisation": {k: v for k, v in sides.items()}, "both_sides": sorted("%s+%s -> %s" % (a, b, c) for (a, b), c in both.items())})
+    if sides["Left"] != sides["Right"] or set(sides["Left"]) != {"imm", "mut", "oimm", "omut", "id"}:
+        res["inconclusive"].append("view::Merge normalisation could not be extracted consistently: %s" % sides)
+    prelude, vname, cname = smt_prelude(rows, sides["Left"])
+    # the normalisation itself must preserve the access mode (read stays read, write stays write)
+    for side in ("Left", "Right"):
+        for k, nk in sides[side].items():
+            res["obligations"] += 1
+            w = lambda x: x in ("mut", "omut")
+            if (k == "id") == (nk == "id") and w(k) == w(nk):
+                res["discharged"] += 1
+            else:
+                res["violations"].append({"what": "view::Merge (%s) turns a %s view into a %s view: the access mode the scheduler sees differs from the access the task gets" % (side, k, nk), "kind": "merge", "model": {"v": k, "c": "c" + ("mut" if w(k) else "imm")}})
+    for (a, b), c in both.items():
+        if a is None or b is None or c is None:
+            res["inconclusive"].append("unrecognised kind in a Both-sided Merge impl: %s+%s -> %s" % (a, b, c))
+            continue
+        res["obligations"] += 1
+        w = lambda x: x in ("mut", "omut")
+        if (c == "id") == (a == "id") and w(c) == (w(a) or w(b)):
+            res["discharged"] += 1
+        else:
+            res["violations"].append({"what": "view::Merge (Both) of %s and %s gives %s" % (a, b, c), "kind": "merge"})
+    # rows that the normalisation makes unreachable are reported, not judged
+    reach_v = set(sides["Left"].values())
+    dead = ["%s x %s" % (vk, ck) for vk, ck, _, _ in rows if vk not in ("null",) and (vk not in reach_v or (ck not in ("absent", "*") and ck not in reach_v))]
+    res["samples"].append({"verifier_rows_unreachable_after_merge_normalisation": dead})
     queries = []
-    queries.append(("no missing row", ["(not (= v idv))", "(= (dec v c) missing)"], ["v", "c"]))
+    queries.append(("no missing row", ["(not (= v idv))", "(= (dec v c) missing)"], ["v", "c"]))  # over effective (normalised) rows
     queries.append(("identifier view never cuts", ["(= v idv)", "(not (= (dec v c) tail))"], ["v", "c"]))
     queries.append(("no spurious cut (C12)", ["(= (dec v c) cut)", "(not (conflict v c))"], ["v", "c"]))
     queries.append(("no missing cut (C08)", ["(= (dec v c) tail)", "(conflict v c)"], ["v", "c"]))
